@@ -537,6 +537,8 @@ class Respondent(httping.Parsent):
             raise ValueError("Invalid content length of {0}".format(self.length))
 
         del self.body[:]  # self.body.clear() clear body python2 bytearrays don't clear
+        self.parms = None  # forget chunk extension parms of previous message
+        self.trails = None  # forget trailing headers of previous message
 
         if self.chunked:  # content-length is ignored if chunked
             self.parms = odict()
